@@ -164,6 +164,30 @@ CLAIMED["C06"] = dict(
               "segment list, uninterpreted calendar function with its stated axioms; obligations discharged by z3/cvc5",
     design="§3 C06")
 
+CLAIMED["C08"] = dict(
+    text="Proof of the no-false-negative contract of the skipping-index structures in pkg/filter, for all inputs: (1) BloomFilter "
+         "(bit-vector semantics, hash functions uninterpreted): Add sets all 10 probe bits of the item and only ever turns bits on "
+         "(loop invariant), MightContain/ContainsAll answer exactly 'all probes set', and a lemma shows that turning more bits on "
+         "keeps every earlier item present - together: an item added since the last resize is never reported absent; (2) "
+         "DictionaryFilter: for scalar tags MightContain/ContainsAll answer 'absent' only if no stored value equals the item; for "
+         "int64-array tags extractElements never answers false when every query value is one of the 8-byte cells; and every lookup "
+         "leaves the stored (cached, shared) dictionary values byte-for-byte intact - the postcondition that exposed a genuine "
+         "defect (fixed, 7d51dee); (3) vararray.UnmarshalVarArray: memory safe and terminating on arbitrary bytes, makes progress, "
+         "changes nothing outside the decoded entry and nothing at all when the buffer holds no escape byte.",
+    note=COMMON_NOTE + "Assumed: xxhash.Sum64 deterministic; the unsafe 8-byte view of the hash variable is a deterministic function "
+         "of its value; sync/atomic operations as single sequential steps (no interleaving of concurrent Adds); bytes.Equal kept as an "
+         "uninterpreted relation; bytes.IndexByte/Clone contracts; bit sets smaller than 2^57 words; len(bits) > 0 is a precondition "
+         "of Add/MightContain (callers resize first; Add after Reset without ResizeBits would divide by zero). Not decided: "
+         "no-false-negative for string-array tags at element level (needs the decode semantics of escaped entries), DictionaryFilter."
+         "MightContain on array tags (returns false by design; callers are expected to use ContainsAll), the callers in "
+         "stream/sidx/trace (tag_filter.go, tag_filter_op.go: proto-typed), min/max and time-range pruning in the engines, the "
+         "inverted index (bluge) and predicate compilation in pkg/query/logical - so 'identical with or without index' is decided "
+         "only for these pruning structures themselves.",
+    technique="contract-based deductive verification: VCs from the typed Go AST (govc); bit-vector obligations with an inductive "
+              "loop invariant for the bloom filter, quantified invariants over nested byte slices for the dictionary filter; "
+              "obligations discharged by z3/cvc5",
+    design="§3 C08")
+
 NOT_APPLICABLE = {
     "C15": "equivalence of two whole query pipelines over generated proto types: translation validation, no function contract states it (DESIGN.md §5)",
     "C17": "whole-cluster equivalence and gRPC/proto-typed transfer code with no type information in this tree (DESIGN.md §5)",
